@@ -126,6 +126,8 @@ class Module:
         # locals renamed in the in-memory tree back to the names the rules know (alpha-equivalent program; see core/alpha.py)
         self.normalised = normalise.normalise(self.tree) if os.environ.get("VERIF_NO_NORMALISE") != "1" else {}
         self.renamings = alpha.canonicalise(self.tree, alpha.load_table().get(name)) if os.environ.get("VERIF_NO_ALPHA") != "1" else []
+        if os.environ.get("VERIF_NO_NORMALISE") != "1":
+            self.normalised.update(normalise.orient(self.tree, alpha.load_table("comparisons").get(name)))
         self.classes = {}
         self.functions = {}
         self.imports = {}  # alias -> ('module', dotted) or ('from', module, name)
